@@ -116,7 +116,7 @@ struct SimSocket {
 impl SimSocket {
     fn flush_hook_events(&self) {
         let evs = verif::take();
-        if evs.is_empty() || self.muted.load(std::sync::atomic::Ordering::Relaxed) {
+        if evs.is_empty() || self.muted.load(std::sync::atomic::Ordering::Relaxed) || *self.aborted.lock().unwrap() {
             return;
         }
         let mut log = self.log.lock().unwrap();
@@ -215,6 +215,14 @@ impl Socket for SimSocket {
     fn recv_with_size(&self, size: usize) -> Result<Packet, Box<dyn Error>> {
         self.flush_hook_events();
         if *self.aborted.lock().unwrap() {
+            // recording is over; a worker that keeps asking (its retry bound is broken) would
+            // spin forever: take the thread down so that it can be joined
+            let mut n = self.sent_since_input.lock().unwrap();
+            *n += 1;
+            if *n > 200 {
+                drop(n);
+                panic!("verif: worker abandoned after the end of the script");
+            }
             return Err("aborted".into());
         }
         *self.sent_since_input.lock().unwrap() = 0;
@@ -316,6 +324,13 @@ impl Sim {
             fs::write(&path, &content).unwrap();
         } else if cfg.devfull {
             std::os::unix::fs::symlink("/dev/full", &path).unwrap();
+        } else if cfg.nb > 0 {
+            // receiver with NB > 0: the target already exists, NB blocks of other content
+            let mut content = Vec::new();
+            for i in 1..=cfg.nb {
+                content.extend_from_slice(&payload(900_000 + i as u32, cfg.blk));
+            }
+            fs::write(&path, &content).unwrap();
         }
         let log = Arc::new(Mutex::new(Vec::new()));
         let (tx, rx) = channel();
